@@ -297,6 +297,19 @@ impl GraphTensor {
         directed: bool,
     ) -> EdgeId {
         let edge_id = EdgeId::new(self.next_edge_id.fetch_add(1, Ordering::Relaxed));
+        self.insert_edge(edge_id, from, to, edge_type, directed);
+        edge_id
+    }
+
+    /// Insert an edge under a given id (`add_edge` with a fresh id; `restore` with the saved one).
+    fn insert_edge(
+        &self,
+        edge_id: EdgeId,
+        from: EntityId,
+        to: EntityId,
+        edge_type: &str,
+        directed: bool,
+    ) {
         let edge_type_id = self.intern_edge_type(edge_type);
 
         // Update max node ID
@@ -325,8 +338,6 @@ impl GraphTensor {
         if self.pending.lock().len() >= self.merge_threshold {
             self.merge();
         }
-
-        edge_id
     }
 
     /// Get outgoing edges from a node.
@@ -673,10 +684,11 @@ impl GraphTensor {
             }
         }
 
-        // Restore edges
+        // Restore edges under their saved ids: edge data is keyed by edge id, and callers hold on
+        // to the ids `add_edge` gave them.
         for edge in snapshot.edges {
             let edge_type = &snapshot.edge_types[edge.edge_type_idx as usize];
-            graph.add_edge(edge.from, edge.to, edge_type, edge.directed);
+            graph.insert_edge(edge.edge_id, edge.from, edge.to, edge_type, edge.directed);
         }
 
         // Restore counters
